@@ -18,6 +18,8 @@
 import os, sys, json, subprocess, shutil, time
 
 ROOT = os.path.dirname(os.path.dirname(os.path.abspath(__file__)))
+# checks run against a patched tree write their evidence to a scratch directory, never to /verif/evidence
+os.environ['VERIF_EVIDENCE_DIR'] = os.path.join(ROOT, 'work', 'evidence_of_patched_trees')
 
 
 def sh(cmd, cwd=None, timeout=None):
